@@ -3,7 +3,23 @@
 
    A handler is identified by the registration call that created it (handler id h);
    [decl h] is what that call said (command as written, background?, ...). *)
-Require Import Bytes AMap Dispatch.
+Require Import Bytes AMap Names Dispatch.
+
+(* When is a received line an echo of the client's own message?  conn.go readLoop: the
+   command is PRIVMSG or NOTICE, the line has a source, and the source's ID equals the
+   client's ID — both RFC1459-folded — where the client's nick is the one it has at the
+   moment the line is READ (nick changes by 001 / NICK take effect when their handlers have
+   run).  [src] = [] stands for a line without a source. *)
+Definition PRIVMSG_cmd : str := Eval vm_compute in bs "PRIVMSG".
+Definition NOTICE_cmd : str := Eval vm_compute in bs "NOTICE".
+Definition is_echo (cmd src nick_at_read : str) : bool :=
+  (streqb cmd PRIVMSG_cmd || streqb cmd NOTICE_cmd)
+  && negb (match src with [] => true | _ => false end)
+  && streqb (to_rfc1459 src) (to_rfc1459 nick_at_read).
+
+(* a received event, from the line and the nick at read time *)
+Definition received (cmd src nick_at_read : str) : event :=
+  mkEv cmd (is_echo cmd src nick_at_read).
 
 Section Spec.
   Variable decl : N -> hdecl.
